@@ -52,6 +52,12 @@ def main(pid):
         # reference (the antecedent scan then works on a truncated window)
         scen = scen + [[dict(it, filler=it["kind"] != "full") for it in sc] for sc in scen[::9]]
         obs = vlib.impl_map("drv_extract", "run_scenarios", scen, common={"cases": cases})
+        # every 12th scenario once more with reporter strings that are the name of two editions in different reporters
+        # ('12 Met. 100 (1845)' ... '12 Met., at 102': the year picks an edition for the full citation only)
+        alt = scen[::12]
+        obs += vlib.impl_map("drv_extract", "run_scenarios", alt, common={"cases": cases, "alt": True})
+        is_alt = [False] * len(scen) + [True] * len(alt)
+        scen = scen + alt
         fails, drifts = tlc_judge("Trace_Scenario", "Trace_Scenario.cfg", obs, ev, name, chunk=40000)
         total += len(obs)
         judged += len(obs) - len(drifts)
@@ -61,7 +67,7 @@ def main(pid):
                 vd.violation(cl, {"cases": cases, "text": o["text"], "items": o["items"]},
                              {"clause": cl, "kinds": "-".join(i["kind"] for i in o["items"]), "config": name},
                              judge=vlib.J("Trace_Scenario", "Trace_Scenario.cfg", o),
-                             rerun=vlib.R("drv_extract", "run_scenarios", scen[ix], common={"cases": cases}))
+                             rerun=vlib.R("drv_extract", "run_scenarios", scen[ix], common={"cases": cases, "alt": is_alt[ix]}))
         if len(drifts) > len(obs) // 2:
             raise MachineryError(f"{len(drifts)} of {len(obs)} scenario documents were not extracted as written")
         ev.sample({"config": name, "text": obs[len(obs) // 2]["text"], "groups": [i["group"] for i in obs[len(obs) // 2]["items"]]})
